@@ -122,14 +122,16 @@ EigendecompositionResult eigendecomposition_impl_randomized(const MatrixType& wm
         ScalarType norm = Y.col(i).norm();
         if (norm < 1e-4)
         {
+            // the range of the matrix is exhausted, the remaining columns stay zero
             for (int k = i; k < Y.cols(); k++)
                 Y.col(k).setZero();
+            break;
         }
         Y.col(i) *= (1.f / norm);
     }
 
     DenseMatrix B1 = operation(Y);
-    DenseMatrix B = Y.householderQr().solve(B1);
+    DenseMatrix B = Y.colPivHouseholderQr().solve(B1);
     DenseSelfAdjointEigenSolver eigenOfB(B);
 
     if (eigenOfB.info() == Eigen::Success)
